@@ -71,8 +71,8 @@ def cases(tier, seed):
     out = []
     for sub in bfs_subjects(tier):
         out.append({"mode": "bfs", "subject": sub, "max_states": 3000 if tier == "quick" else 6000})
-    steps_mod = 40 if tier == "quick" else 300
-    steps_net = 40 if tier == "quick" else 200
+    steps_mod = 30 if tier == "quick" else 300
+    steps_net = 30 if tier == "quick" else 200
     reps = 1 if tier == "quick" else 6
     for r in range(reps):
         for sub in MODULE_SUBJECTS:
